@@ -36,7 +36,18 @@ def _libc(cname):
     return f
 
 
+def _find(em, rd, call, args, obj):
+    # std::find(first, last, value) over std::vector<void*> iterators (M-vec)
+    from . import models
+    if obj is None and len(args) == 3 and models._is_vecit(em, args[0]) and models._is_vecit(em, args[1]):
+        em.lowerings['M-vec(std::find)'] += 1
+        em.extern_funcs['vec_find'] = True
+        return 'vec_find(%s, %s, %s)' % (em.E(args[0]), em.E(args[1]), em.E(args[2]))
+    return None
+
+
 MODELS = {
+    'find': _find,
     'min': _limits('min'),
     'max': _limits('max'),
     'memcpy': _libc('vstd_memcpy'),
